@@ -209,6 +209,12 @@ def onState (st : L2State) (o : Obs) : L2State × Option String :=
   let resync : L2State := { model := some (fromObs o st.model), steps := [], counterUnknown := st.counterUnknown }
   match st.model, st.steps with
   | some m, [(req, res)] =>
+    -- after a `hist relax` the parts of the durable image that cannot be observed (persisted
+    -- savepoint counter, whether an allocator snapshot was saved) are unknown: steps whose outcome
+    -- depends on them are not predicted, the observed state is adopted
+    if st.counterUnknown && (req.head?.any fun w => w.startsWith "CheckIntegrity" || w.startsWith "Reopen" || w.startsWith "CrashReopen") then
+      (resync, none)
+    else
     match plan m req res o with
     | .resync => (resync, none)
     | .drained =>
